@@ -27,6 +27,7 @@ package storage
 //@   ensures [failed] result != nil ==> Dst == old(Dst)
 //@   ensures [absent] !old(Dex)[mkkey(rls.Name, rls.Version)] ==> result != nil
 //@   ensures [C03] [attempt-recorded] Dattempt == store(old(Dattempt), mkkey(rls.Name, rls.Version), rls.Info.Status)
+//@   ensures [C03] [manifest-recorded] (result == nil ==> Dman == store(old(Dman), mkkey(rls.Name, rls.Version), rls.Manifest)) && (result != nil ==> Dman == old(Dman))
 //@   ensures [frame] Dex == old(Dex) && Dname == old(Dname) && Dver == old(Dver)
 
 //@ func (*Storage).Delete
@@ -57,6 +58,8 @@ package storage
 //@   ensures [none] err != nil && errIs(err, driver.ErrNoDeployedReleases) ==> noneDeployed(name)
 //@   ensures [lists-untouched] forall l []*rspb.Release, i int :: !fresh(l) ==> l[i] == old(l[i])
 //@   ensures [fresh-list] err == nil ==> fresh(result)
+//@   ensures [empty-on-error] err != nil ==> len(result) == 0
+//@   ensures [fresh-objects] err == nil ==> forall j int :: 0 <= j && j < len(result) ==> fresh(result[j]) && fresh(result[j].Info)
 //@   ensures [sound] err == nil ==> len(result) > 0 && (forall j int :: 0 <= j && j < len(result) ==> stored(result[j]) && result[j].Name == name && result[j].Info.Status == "deployed")
 //@   ensures [complete] err == nil ==> forall k string :: Dex[k] && Dname[k] == name && Dst[k] == "deployed" ==> (exists j int :: 0 <= j && j < len(result) && mkkey(result[j].Name, result[j].Version) == k)
 //@   ensures [readonly] Dex == old(Dex) && Dst == old(Dst) && Dwritten == old(Dwritten) && Dname == old(Dname) && Dver == old(Dver)
@@ -113,6 +116,7 @@ package storage
 //@   ensures [other-statuses-untouched] forall k string :: k != mkkey(rls.Name, rls.Version) ==> Dst[k] == old(Dst)[k] && Dname[k] == old(Dname)[k] && Dver[k] == old(Dver)[k]
 //@   ensures [well-formed] ledgerWF()
 //@   ensures [C03] [attempt-recorded] Dattempt == store(old(Dattempt), mkkey(rls.Name, rls.Version), rls.Info.Status) || (err != nil && Dattempt == old(Dattempt))
+//@   ensures [C03] [manifest-recorded] (err == nil ==> Dman == store(old(Dman), mkkey(rls.Name, rls.Version), rls.Manifest)) && (err != nil ==> Dman == old(Dman))
 
 //@ func Init
 //@   props C01
